@@ -76,7 +76,11 @@ META = dict(
                 "differential runs and trace replay on every run. Liveness: wait_returns_fair — in every fair execution of the "
                 "shared system (Exec.Fair: an enabled engine step is eventually followed by an engine step; hypothesis) in which the "
                 "program stops adding work, a state is reached where every waiter is released with an exact report and every handler "
-                "ran once."),
+                "ran once; wait_returns_fair_from needs the hand-over only at the tick the additions stop; "
+                "fairFrom_of_scheduler_and_pool / wait_returns_scheduler_and_pool split fairness into a scheduler side and a pool side "
+                "(the interface to C09's no_stuck_task / pop_within_bound / fair_queued_task_started; the refinement between the two "
+                "models is not built); fair_execution_witness exhibits a concrete non-stuttering fair execution (root + two children, "
+                "one failing) satisfying all hypotheses."),
     level_note=("A change that moves the zero test of descendantFinished out of the critical section of its decrement (read after Unlock, "
                 "or in a second critical section) cannot be forced by a hook-point scheduler; it is refuted deterministically, hook-free, "
                 "by the regenerated facts zeroTestInsideCriticalSection / zeroTestInCriticalSectionOfTheDecrement (go/ast, every run) "
